@@ -344,7 +344,7 @@ func runProperty(eng *Engine, prop, tier string, timeout int, findings []Finding
 			// C11: for the swept functions only the shared-state and map-order obligations; for the functions tagged C11
 			// (the containers whose answers must not depend on insertion order, the configuration singleton) the whole
 			// contract
-			if prop == "C11" && sweepOnly[k] && o.Kind != "frame:global" && o.Kind != "order:maprange" && !o.Cover {
+			if prop == "C11" && sweepOnly[k] && o.Kind != "frame:global" && o.Kind != "frame:alias" && o.Kind != "order:maprange" && !o.Cover {
 				continue
 			}
 			// C10: the no-panic obligations, and the preconditions of callees (a callee is panic-free only under its precondition)
@@ -603,7 +603,7 @@ func classify(eng *Engine, g *OblGroup, prop string, findings []Finding, lock ma
 	// it together with the loop its invariants spoke about, or when the helper could not be inlined at all; a helper with a
 	// loop that was *added* next to the function's unchanged loops is new code: its result is unconstrained, which is a
 	// sound over-approximation, and what fails then fails for the added behaviour)
-	if rep := failing[0].rep; rep != nil && impreciseUndecided(rep) && !g.Instances[0].obl.Cover && !strings.HasPrefix(g.Kind, "frame:global") && g.Kind != "order:maprange" {
+	if rep := failing[0].rep; rep != nil && impreciseUndecided(rep) && !g.Instances[0].obl.Cover && !strings.HasPrefix(g.Kind, "frame:") && g.Kind != "order:maprange" {
 		g.Status = "undecided"
 		res.Undecided = append(res.Undecided, fmt.Sprintf("obligation=%s reason=not discharged (%s); the function calls %s - it needs a contract before this can be decided", g.Name, failing[0].job.res.Status, strings.Join(rep.Imprecise, "; ")))
 		return
